@@ -358,3 +358,7 @@ def run(ctx):
             ctx.check(not acc, "R15.4", "create_thread:duplicate-tid", ct.loc(), "a second stream with the same TID is accepted")
         else:
             ctx.check(bool(acc), "R15.4", "create_thread:new-tid", ct.loc(), "a new thread is refused")
+    # merging and ordering walk each list through its own link (every process of every loom, every thread ...)
+    from rules import listlinks
+    listlinks.check(ctx, "R15.3", lambda file, name: file in ("src/emu/system.c", "src/emu/loom.c", "src/emu/proc.c"),
+                    minimum=20)
